@@ -111,7 +111,7 @@ def gen_convert(out):
     def impls(body, trait_names):
         res = []
         for m in re.finditer(r'impl<[^>]*>\s+(From|LossyFrom)<\$(Src[UI])<FracSrc>>\s+for\s+\$(Dst[UI])<FracDst>\s+where\s+(.*?)\{', body, re.S):
-            tr, sp, dp, wh = m.group(1), m.group(2), m.group(3), re.sub(r'\s+', '', m.group(4))
+            tr, sp, dp, wh = m.group(1), m.group(2), m.group(3), re.sub(r',(?=>)', '', re.sub(r'\s+', '', m.group(4)))   # whitespace and rustfmt's trailing commas are not significant
             le_frac = False; bound = None
             for cl in [x for x in re.split(r',(?![^<]*>)', wh) if x]:
                 if cl == 'FracSrc:IsLessOrEqual<FracDst,Output=True>':
@@ -186,7 +186,7 @@ def conv_prim_tables(out):
     c = c[:c.index('fn _compile_fail_tests()')]
     b = lambda x: 'true' if x else 'false'
     def clauses(wh):
-        return [x for x in re.split(r',(?![^<]*>)', re.sub(r'\s+', '', wh)) if x]
+        return [x for x in re.split(r',(?![^<]*>)', re.sub(r',(?=>)', '', re.sub(r'\s+', '', wh))) if x]
     # ---------------- int_to_fixed!
     arms = macro_arms(macro_body(c, 'int_to_fixed'))
     need(len(arms) == 2, 'two arms in int_to_fixed!')
